@@ -6,7 +6,7 @@ use lsp_types::{
     GotoDefinitionParams, Location,
 };
 use spl_frontend::{
-    table::{DataType, Entry, GlobalEntry, LookupTable, SymbolTable},
+    table::{DataType, Entry, GlobalEntry, SymbolTable},
     ToRange, ToTextRange,
 };
 use tokio::sync::mpsc::Sender;
@@ -19,6 +19,7 @@ pub async fn declaration(
     let uri = doc_params.text_document.uri.clone();
     if let Some(cursor) = super::doc_cursor(doc_params, doctx).await? {
         if let Some(ident) = &cursor.ident() {
+            let global_position = cursor.is_global_position();
             let DocumentCursor { doc, context, .. } = cursor;
             if let Some(entry) = context {
                 match &entry {
@@ -41,10 +42,8 @@ pub async fn declaration(
                         }
                     }
                     GlobalEntry::Procedure(p) => {
-                        let lookup_table = LookupTable {
-                            global_table: Some(&doc.table),
-                            local_table: Some(&p.local_table),
-                        };
+                        let lookup_table =
+                            super::lookup_table_for(&doc.table, &p.local_table, global_position);
                         if let Some(entry) = lookup_table.lookup(&ident.value) {
                             // early return for default values
                             if entry.is_default() {
@@ -87,6 +86,7 @@ pub async fn type_definition(
     let uri = doc_params.text_document.uri.clone();
     if let Some(cursor) = super::doc_cursor(doc_params, doctx).await? {
         if let Some(ident) = &cursor.ident() {
+            let global_position = cursor.is_global_position();
             let DocumentCursor { doc, context, .. } = cursor;
             if let Some(entry) = context {
                 match &entry {
@@ -112,10 +112,8 @@ pub async fn type_definition(
                         }
                     }
                     GlobalEntry::Procedure(p) => {
-                        let lookup_table = LookupTable {
-                            global_table: Some(&doc.table),
-                            local_table: Some(&p.local_table),
-                        };
+                        let lookup_table =
+                            super::lookup_table_for(&doc.table, &p.local_table, global_position);
                         if let Some(entry) = lookup_table.lookup(&ident.value) {
                             match &entry {
                                 Entry::Type(t) => {
@@ -174,14 +172,13 @@ pub async fn implementation(
     let uri = doc_params.text_document.uri.clone();
     if let Some(cursor) = super::doc_cursor(doc_params, doctx).await? {
         if let Some(ident) = &cursor.ident() {
+            let global_position = cursor.is_global_position();
             let DocumentCursor { doc, context, .. } = cursor;
             if let Some(entry) = context {
                 match &entry {
                     GlobalEntry::Procedure(p) => {
-                        let lookup_table = LookupTable {
-                            global_table: Some(&doc.table),
-                            local_table: Some(&p.local_table),
-                        };
+                        let lookup_table =
+                            super::lookup_table_for(&doc.table, &p.local_table, global_position);
                         if let Some(entry) = lookup_table.lookup(&ident.value) {
                             if let Entry::Procedure(target) = entry {
                                 // early return for default values
